@@ -118,6 +118,24 @@ theorem incCount_adv (k : Comp) {b b1 : Bytes} (ha : Adv b b1) (hs : csum b1 + b
   have := incCount_csum (c := c) k b1
   exact ⟨by rw [hi.1]; exact ha.slc, by rw [hi.2]; exact ha.valid, by rw [hi.2]; exact ha.mono, by rw [hi.2]; omega⟩
 
+/-- counting `l.length` digits after the cursor moved at least that many bytes further than the counts
+(`for _ in 0..8 { iter.increment_count() }` after `step_by_unchecked(8)`) -/
+theorem incCountFold_adv (k : Comp) : ∀ (l : List Nat) {b b1 : Bytes}, Adv b b1 →
+    csum b1 + b.index + l.length ≤ csum b + b1.index →
+    Adv b (l.foldl (fun b _ => Bytes.incCount c k b) b1) ∧
+      (l.foldl (fun b _ => Bytes.incCount c k b) b1).index = b1.index := by
+  intro l
+  induction l with
+  | nil => intro b b1 ha _; exact ⟨ha, rfl⟩
+  | cons x xs ih =>
+    intro b b1 ha hs
+    simp only [List.length_cons] at hs
+    have hi := incCount_spec c k b1
+    have hcs := incCount_csum (c := c) k b1
+    have ha2 := incCount_adv (c := c) k ha (by omega)
+    obtain ⟨h1, h2⟩ := ih ha2 (by rw [hi.2]; omega)
+    exact ⟨h1, by rw [List.foldl_cons, h2, hi.2]⟩
+
 /-! ## `read_if_value`, `skip_zeros`, `is_consumed` -/
 
 theorem readIfValueCased_tot (hc : Rel c) (k : Comp) (v : Nat) (b : Bytes) (hv : b.index ≤ b.slc.length) :
@@ -255,7 +273,9 @@ theorem tryParse8_tot (hc : Rel c) (k : Comp) (b : Bytes) (hv : b.index ≤ b.sl
     have h8 := peekBytes_some hpb
     split
     · simp only [stepBy_rel hc, bind, Except.bind]
-      exact ⟨_, _, rfl, step_adv b 8 h8, by simp⟩
+      obtain ⟨h1, h2⟩ := incCountFold_adv (c := c) k (List.range 8) (step_adv b 8 h8)
+        (by simp only [csum, List.length_range]; omega)
+      exact ⟨_, _, rfl, h1, fun _ => by rw [h2]; exact Nat.le_refl _⟩
     · exact ⟨none, b, rfl, Adv.refl b hv, by simp⟩
 
 theorem parse8Loop_tot (hc : Rel c) (k : Comp) :
